@@ -23,7 +23,7 @@ CLAIM = {
             "Index<Namespace> reads slot index.0; Namespaces::get_namespace returns the position of the equal name. "
             "ToKey::get_key of class/field/method takes the name from first_name() with the error propagated (no default), "
             "first_name reads slot 0, add_child fails on an occupied key, map_with_key_from_result_iter passes every element "
-            "and every error on.",
+            "and every error on. Premises evaluated with it: C06 R06.2/R06.4 (remapper_a table provenance, map_desc).",
     "note": "Not decided: the permutation / inverse / identity laws as behaviour, that `namespaces` is a permutation (a repeated "
             "namespace is not rejected by reorder itself), correctness of remapper_a and map_desc (C06). "
             "Trusted: rustc HIR/typeck and ADT tables; spec/quill_reorder.json (transcribed from the property statement and docs).",
